@@ -655,7 +655,9 @@ def conc_extra(pid, tier, seed):
     run = Run(pid, tier, seed)
     run.dir = workdir("check-" + pid + "-conc")
     run.lin_tags = {pid}
-    kind = {"C01": "C03"}.get(pid, pid)
+    # (C02: CAS-conditional stores racing each other and plain stores; C06 / C07: the conditional stores and the counter commands
+    # as read-modify-write commands under every schedule - a history that is not linearizable breaks their statements too)
+    kind = {"C01": "C03", "C02": "C03", "C06": "C04", "C07": "C04"}.get(pid, pid)
     quick = tier == "quick"
     jobs = []
     parts = 6
